@@ -135,12 +135,28 @@ func (g *sg) stmt(d int) {
 	}
 	g.pipeline(d)
 	for d > 0 && g.p(5) {
-		g.w(g.pick(" && ", " || "))
-		if g.p(4) {
-			g.nl()
-		}
+		g.binOp(g.pick("&&", "||"))
 		g.pipeline(d - 1)
 		g.f("andor")
+	}
+}
+
+// binOp writes a binary operator in one of the layouts sources use: inline,
+// operator then newline, operator leading a continuation line, and operator
+// followed by a comment line.
+func (g *sg) binOp(op string) {
+	switch k := g.r.IntN(16); {
+	case k < 3:
+		g.w(" " + op)
+		g.nl()
+	case k == 3 && len(g.pending) == 0:
+		g.f("operator-leads-continuation")
+		g.w(" \\\n\t" + op + " ")
+	case k == 4 && g.o.Comments && len(g.pending) == 0:
+		g.f("comment-after-operator")
+		g.w(" " + op + " # c\n")
+	default:
+		g.w(" " + op + " ")
 	}
 }
 
@@ -152,16 +168,23 @@ func (g *sg) pipeline(d int) {
 			op = " |& "
 			g.f("pipeall")
 		}
-		g.w(op)
-		if g.p(5) {
-			g.nl()
-		}
+		g.binOp(strings.TrimSpace(op))
 		g.command(d - 1)
 		g.f("pipe")
 	}
 }
 
 func (g *sg) command(d int) {
+	if g.p(28) {
+		// a statement made of redirections only
+		g.f("bare-redirect")
+		g.redir(d)
+		if g.p(3) {
+			g.w(" ")
+			g.redir(d)
+		}
+		return
+	}
 	if d <= 0 {
 		g.simple(0)
 		return
@@ -874,6 +897,12 @@ func (g *sg) paramExp(d int, quoted bool) {
 		g.w(nm)
 	}
 	g.w("}")
+	if g.p(4) {
+		// text glued to the closing brace: whether the braces may be dropped
+		// (Minify) depends on exactly this character
+		g.f("paramexp-glued-text")
+		g.w(g.pick("2", "0z", "_x", "a", "Z9", "[1]", "-", ".", "é", ":", "{", "@", "*", "#", "?", "!", "$"))
+	}
 }
 
 func (g *sg) arith(d int, noSpace bool) {
